@@ -1,0 +1,223 @@
+//go:build verif
+
+package quickfix
+
+// Verification hooks (build tag `verif` only): a single-threaded driver over the unexported session state
+// machine, used by the correspondence harness in /verif. Nothing here is compiled into the default build.
+
+import (
+	"bytes"
+	"fmt"
+	"sort"
+	"strings"
+	"time"
+
+	"github.com/quickfixgo/quickfix/internal"
+)
+
+// VerifSessionConfig is the plain configuration of a VerifSession.
+type VerifSessionConfig struct {
+	Initiator                    bool
+	BeginString                  string
+	SenderCompID, TargetCompID   string
+	ResetOnLogon                 bool
+	ResetOnLogout                bool
+	ResetOnDisconnect            bool
+	RefreshOnLogon               bool
+	ResendRequestChunkSize       int
+	HeartBtInt                   time.Duration
+	HeartBtIntOverride           bool
+	SkipCheckLatency             bool
+	MaxLatency                   time.Duration
+	DisableMessagePersist        bool
+	EnableLastMsgSeqNumProcessed bool
+	InChanCapacity               int
+	DefaultApplVerID             string
+}
+
+// VerifSession drives one session without its run loop.
+type VerifSession struct {
+	s   *session
+	in  chan fixIn
+	out chan []byte
+}
+
+// NewVerifSession builds a session the way the test rig does (no run loop, nil timers).
+func NewVerifSession(c VerifSessionConfig, app Application, store MessageStore, validator Validator) *VerifSession {
+	s := &session{
+		sessionID:    SessionID{BeginString: c.BeginString, TargetCompID: c.TargetCompID, SenderCompID: c.SenderCompID},
+		store:        store,
+		application:  app,
+		log:          nullLog{},
+		sessionEvent: make(chan internal.Event, 1024),
+		messageEvent: make(chan bool, 1),
+	}
+	s.Validator = validator
+	s.InitiateLogon = c.Initiator
+	s.ResetOnLogon = c.ResetOnLogon
+	s.ResetOnLogout = c.ResetOnLogout
+	s.ResetOnDisconnect = c.ResetOnDisconnect
+	s.RefreshOnLogon = c.RefreshOnLogon
+	s.ResendRequestChunkSize = c.ResendRequestChunkSize
+	s.HeartBtInt = c.HeartBtInt
+	s.HeartBtIntOverride = c.HeartBtIntOverride
+	s.SkipCheckLatency = c.SkipCheckLatency
+	s.MaxLatency = c.MaxLatency
+	s.DisableMessagePersist = c.DisableMessagePersist
+	s.EnableLastMsgSeqNumProcessed = c.EnableLastMsgSeqNumProcessed
+	s.InChanCapacity = c.InChanCapacity
+	s.DefaultApplVerID = c.DefaultApplVerID
+	s.LogonTimeout = time.Hour
+	s.LogoutTimeout = time.Hour
+	s.timestampPrecision = Millis
+	s.State = latentState{}
+	return &VerifSession{s: s}
+}
+
+// Connect plays onAdmin(connect{...}) with fresh channels.
+func (v *VerifSession) Connect() {
+	if v.s.IsConnected() {
+		v.s.onAdmin(connect{messageIn: v.in, messageOut: v.out})
+		return
+	}
+	capIn := v.s.InChanCapacity
+	v.in = make(chan fixIn, capIn)
+	v.out = make(chan []byte, 100000)
+	v.s.onAdmin(connect{messageIn: v.in, messageOut: v.out})
+}
+
+// Arrive puts a frame into the buffered inbound channel, as the read loop would; false if it would block or there is no connection.
+func (v *VerifSession) Arrive(frame []byte) bool {
+	if v.s.messageIn == nil {
+		return false
+	}
+	select {
+	case v.in <- fixIn{bytes.NewBuffer(frame), time.Now()}:
+		return true
+	default:
+		return false
+	}
+}
+
+// Deliver takes the head of the inbound channel, as the run loop would.
+func (v *VerifSession) Deliver() bool {
+	if v.s.messageIn == nil {
+		return false
+	}
+	select {
+	case f := <-v.s.messageIn:
+		v.s.Incoming(v.s, f)
+		return true
+	default:
+		return false
+	}
+}
+
+// Incoming processes one frame directly.
+func (v *VerifSession) Incoming(frame []byte) {
+	v.s.Incoming(v.s, fixIn{bytes.NewBuffer(frame), time.Now()})
+}
+
+// InClosed is what the run loop does when the inbound channel is closed.
+func (v *VerifSession) InClosed() { v.s.Disconnected(v.s) }
+
+// Timeout delivers a timer event: 0 NeedHeartbeat, 1 PeerTimeout, 2 LogonTimeout, 3 LogoutTimeout.
+func (v *VerifSession) Timeout(e int) {
+	ev := []internal.Event{internal.NeedHeartbeat, internal.PeerTimeout, internal.LogonTimeout, internal.LogoutTimeout}[e]
+	v.s.Timeout(v.s, ev)
+}
+
+// Send is SendToTarget's queueForSend.
+func (v *VerifSession) Send(m *Message) error { return v.s.queueForSend(m) }
+
+// Flush is the run loop's reaction to messageEvent.
+func (v *VerifSession) Flush() {
+	select {
+	case <-v.s.messageEvent:
+	default:
+	}
+	v.s.SendAppMessages(v.s)
+}
+
+// Stop plays onAdmin(stopReq{}).
+func (v *VerifSession) Stop() { v.s.onAdmin(stopReq{}) }
+
+// DrainOut returns what was written to the outbound channel since the last call and whether it has been closed.
+func (v *VerifSession) DrainOut() (msgs [][]byte, closed bool) {
+	if v.out == nil {
+		return nil, false
+	}
+	for {
+		select {
+		case m, ok := <-v.out:
+			if !ok {
+				v.out = nil
+				return msgs, true
+			}
+			msgs = append(msgs, m)
+		default:
+			return msgs, false
+		}
+	}
+}
+
+func verifStateShape(st sessionState) string {
+	switch x := st.(type) {
+	case notSessionTime:
+		return "notsession"
+	case latentState:
+		return "latent"
+	case logonState:
+		return "logon"
+	case logoutState:
+		return "logout"
+	case inSession:
+		return "insession"
+	case resendState:
+		keys := make([]int, 0, len(x.messageStash))
+		for k := range x.messageStash {
+			keys = append(keys, k)
+		}
+		sort.Ints(keys)
+		ks := make([]string, len(keys))
+		for i, k := range keys {
+			ks[i] = fmt.Sprint(k)
+		}
+		nilmap := "map"
+		if x.messageStash == nil {
+			nilmap = "nil"
+		}
+		return fmt.Sprintf("(resend %s (%s) %d %d)", nilmap, strings.Join(ks, " "), x.currentResendRangeEnd, x.resendRangeEnd)
+	case pendingTimeout:
+		return "(pending " + verifStateShape(x.sessionState) + ")"
+	}
+	return "unknown"
+}
+
+// StateShape describes the current state, including the resend bookkeeping.
+func (v *VerifSession) StateShape() string { return verifStateShape(v.s.State) }
+
+// Counters returns the store's next sender / target numbers.
+func (v *VerifSession) Counters() (int, int) {
+	return v.s.store.NextSenderMsgSeqNum(), v.s.store.NextTargetMsgSeqNum()
+}
+
+// ToSendLen is the length of the outbound queue.
+func (v *VerifSession) ToSendLen() int { return len(v.s.toSend) }
+
+// Stopped reports stateMachine.Stopped().
+func (v *VerifSession) Stopped() bool { return v.s.Stopped() }
+
+// HeartBtIntSeconds is the current heartbeat interval.
+func (v *VerifSession) HeartBtIntSeconds() int { return int(v.s.HeartBtInt / time.Second) }
+
+// InBuffered is the number of frames waiting in the inbound channel.
+func (v *VerifSession) InBuffered() int {
+	if v.s.messageIn == nil {
+		return 0
+	}
+	return len(v.s.messageIn)
+}
+
+// SentReset exposes session.sentReset.
+func (v *VerifSession) SentReset() bool { return v.s.sentReset }
